@@ -24,7 +24,7 @@ sys.path.insert(0, os.path.join(os.path.dirname(os.path.abspath(__file__)), ".."
 sys.path.insert(0, os.path.dirname(os.path.abspath(__file__)))
 import vlib
 
-SPACES = ["automaton", "grammar", "mutate", "literals", "options"]
+SPACES = ["automaton", "grammar", "mutate", "layout", "literals", "options"]
 DATA = os.path.join(vlib.VERIF, "data", "c11")
 ENV = dict(vlib.ASAN_ENV)
 ENV_NOSYM = dict(ENV, ASAN_OPTIONS=ENV["ASAN_OPTIONS"] + ":symbolize=0", UBSAN_OPTIONS=ENV["UBSAN_OPTIONS"] + ":symbolize=0")
@@ -475,6 +475,79 @@ def space_mutate_other_tools(ck, gl, pool, thorough=True):
                          replay={"kind": "other", "tool": label, "mutant": [kind, pos, b]})
 
 
+# --------------------------------------------------------------------------- space 3b
+LAYOUTS = ["one-line", "crlf", "cr-only-in-text", "pad-4095", "pad-4096", "pad-4097", "pad-70000", "long-comment", "no-final-newline", "blank-lines-x3",
+           "tabs", "indent-2000"]
+
+
+def relayout(doc, how):
+    """the same XML document in another physical layout (white space between tokens / inside text only)"""
+    if how == "one-line":
+        return doc.replace(b"\r", b"").replace(b"\n", b" ")
+    if how == "crlf":
+        return doc.replace(b"\r", b"").replace(b"\n", b"\r\n")
+    if how == "cr-only-in-text":
+        return doc.replace(b">\n<", b">\r\n<")
+    if how.startswith("pad-"):
+        # one physical line of exactly n bytes (incl. its newline) and the same line longer: blanks after the first tag end
+        n = int(how[4:])
+        lines = doc.split(b"\n")
+        for i, l in enumerate(lines):
+            if i >= 2 and l.rstrip().endswith(b">") and not l.lstrip().startswith(b"<?"):
+                lines[i] = l + b" " * max(0, n - 1 - len(l))
+                break
+        return b"\n".join(lines)
+    if how == "long-comment":
+        i = doc.find(b"\n", doc.find(b"<gama-local"))
+        return doc[:i + 1] + b"<!-- " + b"x" * 9000 + b" -->\n" + doc[i + 1:]
+    if how == "no-final-newline":
+        return doc.rstrip(b"\r\n \t")
+    if how == "blank-lines-x3":
+        return doc.replace(b"\n", b"\n\n\n")
+    if how == "tabs":
+        return doc.replace(b"\n", b"\n\t\t")
+    if how == "indent-2000":
+        return doc.replace(b"\n<", b"\n" + b" " * 2000 + b"<")
+    raise KeyError(how)
+
+
+def space_layout(ck, gl, pool):
+    """every valid seed document x every physical layout: the real gama-local must give the same answer as for the
+    original (same class, same adjustment XML apart from nothing): white space between markup is not data"""
+    seeds = {n: open(os.path.join(DATA, n), "rb").read() for n in sorted(os.listdir(DATA)) if n.endswith(".gkf") and n.startswith("s")}
+    jobs = [(n, "original") for n in seeds] + [(n, how) for n in seeds for how in LAYOUTS]
+
+    def one(k):
+        n, how = jobs[k]
+        doc = seeds[n] if how == "original" else relayout(seeds[n], how)
+        p = os.path.join(ck.tmp, "lay-%d.gkf" % k)
+        with open(p, "wb") as fh:
+            fh.write(doc)
+        rc, out, err, dt = run_cmd([gl, p])
+        os.unlink(p)
+        return k, classify_gl(rc, out, err) + (out,)
+
+    res = dict(pool.map(one, range(len(jobs))))
+    base = {}
+    for k, (n, how) in enumerate(jobs):
+        if how == "original":
+            base[n] = res[k]
+    for k, (n, how) in enumerate(jobs):
+        cls, vsig, detail, out = res[k]
+        ck.count("states"); ck.count("transitions"); ck.count("layout_runs")
+        ck.outcome("layout(%s) -> %s" % (how, cls))
+        rp = {"kind": "layout", "seed": n, "layout": how}
+        if vsig:
+            ck.violation("layout|%s|%s" % (how, vsig), "%s in layout %s: %s" % (n, how, detail), replay=rp)
+        if how == "original":
+            continue
+        b = base[n]
+        if cls != b[0]:
+            ck.violation("layout|%s|class-differs|%s->%s" % (how, b[0].split(":")[0], cls.split(":")[0]), "%s: original %s (%s), layout %s: %s (%s)" % (n, b[0], b[2], how, cls, detail), replay=rp)
+        elif out != b[3]:
+            ck.violation("layout|%s|output-differs" % how, "%s: the result document differs from that of the original layout" % n, replay=rp)
+
+
 # --------------------------------------------------------------------------- space 4
 def space_literals(ck, hexe):
     viols, extra = run_harness(ck, hexe, ["--mode", "literals", "--tier", ck.tier], vlib.NCPU * 4)
@@ -576,6 +649,19 @@ def do_replay(ck, path, hexe):
         print(out[-1500:]); print(err[-3000:], file=sys.stderr)
         print("replay: rc=%s class=%s %s" % (rc, cls, detail))
         sys.exit(1 if (vsig or cls.startswith("parse-error")) else 0)
+    if case.get("kind") == "layout":
+        gl = vlib.exe("asan", "gama-local")
+        doc = open(os.path.join(DATA, case["seed"]), "rb").read()
+        outs = []
+        for how in ("original", case["layout"]):
+            p = os.path.join(ck.tmp, "lay.gkf")
+            open(p, "wb").write(doc if how == "original" else relayout(doc, how))
+            rc, out, err, dt = run_cmd([gl, p])
+            outs.append((classify_gl(rc, out, err)[0], out))
+            print("replay: %s layout %s -> %s" % (case["seed"], how, outs[-1][0]))
+        bad = outs[0] != outs[1]
+        print("replay: %s" % ("violation reproduced" if bad else "no violation"))
+        sys.exit(1 if bad else 0)
     if case.get("kind") == "other":
         label = case["tool"]; tool = label.split("#")[0]; kind, pos, b = case["mutant"]
         gl = vlib.exe("asan", "gama-local")
@@ -626,6 +712,8 @@ def main():
             space_grammar(ck, gl, pool)
         elif sp == "mutate":
             space_mutate(ck, hexe, gl, pool)
+        elif sp == "layout":
+            space_layout(ck, gl, pool)
         elif sp == "literals":
             space_literals(ck, hexe)
         elif sp == "options":
@@ -646,11 +734,12 @@ def main():
         "invariants on every transition (error state absorbing, error => message and line >= 1, recorded error => error state, no sanitizer report, canon-on-replay), accepted end states x 4 algorithms on gama-local; "
         "grammar: all XSD-derived documents %s x 3 attribute modes + one-optional-attribute-at-a-time + every enumeration value, each on gama-local; "
         "mutate: %s seeds: every split, every prefix%s, every position%s x 12 bytes in-process, accepted mutants and 1/%d of the refused ones on gama-local%s; "
+        "layout: every valid seed document x %d physical layouts (one line, CRLF, padded lines of 4095/4096/4097/70000 bytes, 9000-byte comment, no final newline, blank lines, tabs, 2000-blank indentation) on gama-local: same class and byte-identical result document as for the original layout; "
         "literals: all strings over 9 letters up to length %d in 5 attribute classes + overflow literals; options: every option x {valid,empty,garbage,missing,before-input}, every pair, 2 inputs, degenerate inputs. "
         "states = canonical parser states + distinct documents/mutants/literals/command lines; transitions = parser events replayed + executable runs"
         % (ck.counters.get("automaton_events", "?"), "with 1..2 clusters x 1..2 observations" if th else "with 1 cluster x 1..2 observations and 2 clusters x 1 observation",
            "8 valid + 5 invalid", "" if th else " (stride 3 plus the last 64)", "" if th else " (stride 3)", 16 if th else 48,
-           "; gama-g3 (2 seed documents: one covariance matrix per <obs>; a cluster assembled from three covariance pieces) / compare-xyz / gama-local-deformation: the seed and every prefix" + (" and every substitution" if th else ""), 6 if th else 5),
+           "; gama-g3 (2 seed documents: one covariance matrix per <obs>; a cluster assembled from three covariance pieces) / compare-xyz / gama-local-deformation: the seed and every prefix" + (" and every substitution" if th else ""), len(LAYOUTS), 6 if th else 5),
         assumptions=[
             "documented exit statuses of gama-local are {0,1,2,3} as read from main(); with XML output an error document is written and the status is 0",
             "hang = more than %d s CPU (ulimit -t) or %d s wall for an executable, more than 250 ms CPU for one in-process xml_parse call (an ordinary call takes < 0.1 ms)" % (CPU_LIMIT_S, WALL_LIMIT_S),
